@@ -44,6 +44,29 @@ fn catalogue(seed: u64, tier: &str) -> Vec<Value> {
     take("c14", &["map"], 2 * k);
     take("c11", &["pairl"], 4 * k);
     take("c12", &["ferel"], 1 * k);
+    // calls that ABORT half-way (a scalar with bit 255 set trips the bucket method's assertion after
+    // earlier scalars were already scattered): whatever they leave behind must not leak into later
+    // calls on the same thread.  Followed in the catalogue by valid calls of several window sizes.
+    {
+        use pairing::bls12_381::{G1, G2};
+        use pairing::{CurveAffine, CurveProjective};
+        let mut rng = xs(seed ^ 0x2020);
+        let p1: Vec<Value> = (0..20).map(|_| aff_to_j(&G1::random(&mut rng).into_affine())).collect();
+        let p2: Vec<Value> = (0..20).map(|_| aff_to_j(&G2::random(&mut rng).into_affine())).collect();
+        let mut rr = Rng(seed ^ 0x7777);
+        let top = { let mut w = rand_scalar_bits(&mut rr, 250); w[3] |= 0x7c00_0000_0000_0000; w }; // bits 250..254 set
+        let bad = w_pow2(255, 4);
+        let good: Vec<Value> = (0..20).map(|_| nat(&rand_scalar_bits(&mut rr, 255))).collect();
+        for (g, pts) in [("G1", &p1), ("G2", &p2)].iter() {
+            for w in [3u64, 5, 8].iter() {
+                v.push(json!({"op": "msm", "g": g, "fn": "pippenger", "window": w, "points": pts[..3].to_vec(),
+                              "scalars": [nat(&top), nat(&top), nat(&bad)], "xabort": true, "cls": "aborting-call"}));
+                v.push(json!({"op": "msm", "g": g, "fn": "pippenger", "window": w, "points": pts.to_vec(),
+                              "scalars": good.clone(), "cls": "after-aborting-call"}));
+            }
+            v.push(json!({"op": "msm", "g": g, "fn": "default", "points": pts.to_vec(), "scalars": good.clone(), "cls": "after-aborting-call"}));
+        }
+    }
     // instances that share part of their input (same message and tag, other expander / field / suite)
     for sess in generate("c13", seed, "quick").into_iter().chain(generate("c06", seed, "quick").into_iter()) {
         for op in sess {
@@ -133,6 +156,7 @@ pub fn run(seed: u64, tier: &str, out: &str) {
     for i in (0..n).rev() {
         seq0 += 1;
         emit(&json!({"op": "ret", "t": 0, "seq": seq0, "inst": i, "val": insts[i](), "panic": false, "cls": "sequential-reversed"}));
+        // (instances never unwind: exec() catches a panic of the library and returns its message)
     }
     // (2b) sequential, three more pseudo-random orders: other adjacencies for history-dependent state
     for round in 0..3u64 {
